@@ -106,6 +106,23 @@ def cfgs_chain(prop, tier):
                         out.append((c, pat))
     if tier == 'thorough':
         out += [(dict(c, rebalancing=True, name=c['name'] + ' rebal'), pat) for c, pat in out if c['version'] == 6]
+    # bursts with rebalancing on: several intervals of ONE dimension are split per step for a few steps, afterwards only the other dimension is
+    # refined - the rebalancing pass (one rotation per step) keeps working on the dimension that is no longer refined
+    bursts = []
+    for A, Bd in ((0, 1), (1, 0)):
+        bursts.append([('I', {A: [-1], Bd: [1]}), ('I', {A: [-1], Bd: [1, 2]}), ('I', {A: [-1]}), ('I', {A: [-1]})])
+        bursts.append([('I', {A: [0], Bd: [-2]}), ('I', {A: [0], Bd: [-2, -3]}), ('I', {A: [0], Bd: [-2, -3, -4]}), ('I', {A: [0]}), ('I', {A: [-1]}), ('I', {A: [0]})])
+        bursts.append([('I', {Bd: [0, 1]}), ('I', {Bd: [0, 1, 2, 3]}), ('I', {A: [0]}), ('I', {A: [1]}), ('I', {A: [-1]})])
+        bursts.append([('I', {A: [-1], Bd: [1]}), ('I', {Bd: [1, 2]}), ('I', {Bd: [2, 3]}), ('I', {A: [-1]}), ('I', {A: [-1]}), ('I', {A: [-2]})])
+    for (lmin, lmax) in ((1, 2), (2, 3)) + (((1, 3),) if tier == 'thorough' else ()):
+        for version in ((6,) if tier == 'quick' else (6, 7, 8, 2)):
+            for sfn in ((1,) if tier == 'quick' else (1, 0, 3)):
+                for pi, pat in enumerate(bursts):
+                    c = dict(D=2, lmin=lmin, lmax=lmax, version=version, rebalancing=True, boundary=(pi % 2 == 0), sfn=sfn, sfd=10, maxintervals=60,
+                             max_hats=(60 if tier == 'quick' else 120) if prop == 'C04' else 6, name='burst D=2 (%d,%d) v%d sf=%d/10 #%d' % (lmin, lmax, version, sfn, pi))
+                    if prop == 'C06':
+                        c['margin'] = None
+                    out.append((c, pat))
     return out
 
 
@@ -202,6 +219,12 @@ def conclude(rep, prop, traces, finish=True):
                 sig = {'strategy': 'dimwise', 'version': cfg['version'], 'rebalancing': cfg['rebalancing']}
                 if prop == 'C04':
                     sig['cause'] = classify_c04(rep, tr, step)
+                    # a loss is one of the recorded findings only if the specification EXPLAINS it: on this very state the point sets the library
+                    # uses are the ones the model derives from the recorded trees (I_PointSets) and the discrete criterion predicts exactly the
+                    # hats that were lost (I_C04_Criterion).  A loss on a state the model does not explain is something else.
+                    unexplained = sorted(cl for st2, cl in v if st2 == step and cl in ('I_PointSets', 'I_C04_Criterion'))
+                    if unexplained and sig['cause'] in ('rebalancing', 'version2', 'version3'):
+                        sig['cause'] = 'not explained by the model (%s fails on the same state)' % ', '.join(unexplained)
                     if sig['cause'] in ('rebalancing', 'version2', 'version3'):
                         # the recorded legacy-version findings are limited to the start levels on which the unchanged library shows them
                         sig = {'strategy': 'dimwise', 'cause': sig['cause'], 'lmin_ge_2': cfg['lmin'] >= 2, 'lmin_ge_2_or_gap_ge_2': cfg['lmin'] >= 2 or cfg['lmax'] - cfg['lmin'] >= 2}
@@ -230,7 +253,7 @@ def replay_prop(prop, path, seed):
         r = json.load(f)['replay']
     cfg = r['script']['cfg']
     run = P.DimWiseRun(cfg['D'], cfg['lmin'], cfg['lmax'], version=cfg['version'], rebalancing=cfg['rebalancing'], boundary=cfg['boundary'],
-                       safety=cfg['safety'], margin=cfg['margin'], a=cfg['a'], b=cfg['b'])
+                       safety=cfg['safety'], margin=cfg['margin'], a=cfg['a'], b=cfg['b'], continue_via=cfg.get('continue_via', 'resume'))
     run.evaluate()
     evs = [P.observe(run)]
     if r['script']['start_depth'] != 0:
